@@ -610,6 +610,9 @@ class Union(Structure, metaclass=UnionMetaType):
             for field in value.__class__.__fields__:
                 if issubclass(field.type, Structure):
                     nested_value = getattr(value, field._name)
+                    if isinstance(nested_value, UnionProxy):
+                        # The member of a nested union, which has already proxied it for itself
+                        nested_value = nested_value.__target__
                     # A change anywhere below a union member is applied by rebuilding that member
                     attr = member or field._name
                     proxy = UnionProxy(self, attr, nested_value)
